@@ -123,6 +123,36 @@ func (m *member) Announce(ctx context.Context, req tracker.AnnounceRequest) (*tr
 	return nil, errors.New("scripted failure")
 }
 
+// clientSide wraps a real tracker client (HTTP/UDP against a scripted server) and records every Announce call with the result the
+// Tier is given: an attempt that dies before the server sees it (client time-out while the machine stalls) stays visible.
+type clientSide struct {
+	sc    *annh.Sc
+	k     int
+	tp    string
+	inner tracker.Tracker
+	n     atomic.Int64
+}
+
+func (c *clientSide) URL() string { return c.inner.URL() }
+
+func (c *clientSide) Announce(ctx context.Context, req tracker.AnnounceRequest) (*tracker.AnnounceResponse, error) {
+	at := time.Now()
+	n := c.n.Add(1)
+	resp, err := c.inner.Announce(ctx, req)
+	tt := req.Torrent
+	line := map[string]any{"k": c.k, "t": 1, "ev": evName(req.Event), "ih": hex.EncodeToString(tt.InfoHash[:]), "pid": hex.EncodeToString(tt.PeerID[:]),
+		"port": tt.Port, "up": tt.BytesUploaded, "down": tt.BytesDownloaded, "left": tt.BytesLeft, "now": c.sc.Ms(at), "tp": c.tp, "n": int(n), "nxt": false,
+		"dur": int(time.Since(at) / time.Millisecond), "iv": 0, "miv": 0}
+	if err != nil {
+		line["res"], line["kind"] = "fail", "clienterr"
+	} else {
+		line["res"], line["kind"] = "ok", "ok"
+		line["iv"], line["miv"] = int(resp.Interval/time.Second), int(resp.MinInterval/time.Second)
+	}
+	c.sc.Line("ann", line)
+	return resp, err
+}
+
 type tierSpec struct {
 	name  string
 	kind  string
@@ -195,7 +225,7 @@ func genTier(seed int64, n int) []tierSpec {
 			for j := range pats {
 				pats[j] = []string{"CO", "FCO", "OCO"}[rng.Intn(3)]
 			}
-			add(tierSpec{kind: "foreigncancel", pats: pats, need: true, durMs: 4500, minAn: nm + 5})
+			add(tierSpec{kind: "foreigncancel", pats: pats, need: true, durMs: 8000, minAn: nm + 5})
 		case 5: // single tracker with errors and events (need more peers toggles, completion)
 			evs := []tev{{atMs: 300 + rng.Intn(500), op: "need0"}, {atMs: 1000 + rng.Intn(400), op: "complete"}, {atMs: 1600 + rng.Intn(300), op: "need1"}}
 			add(tierSpec{kind: "single", pats: []string{randPat(rng, 8, 0.5, "FET") + "O"}, need: true, evs: evs, durMs: 5000, minAn: 9})
@@ -262,7 +292,7 @@ func runTier(sp tierSpec, stall *stallMeter) *annh.Sc {
 		}
 	} else {
 		sc.Unit, sc.Cmin = 1000, 600
-		sc.HTTPTO = 500
+		sc.HTTPTO = 2000
 		tm := trackermanager.New(nil, time.Second, true)
 		closers = append(closers, tm.Close)
 		var ts []*annh.Trk
@@ -290,16 +320,17 @@ func runTier(sp tierSpec, stall *stallMeter) *annh.Sc {
 				return sc
 			}
 			k.TorOf = 1
+			k.Quiet = true // recorded on the client side (see clientSide)
 			closers = append(closers, k.Close)
 			ts = append(ts, k)
-			m, err := tm.Get(k.URL(), 500*time.Millisecond, "c16", 1<<20)
+			m, err := tm.Get(k.URL(), 2*time.Second, "c16", 1<<20)
 			if err != nil {
 				sc.Fail("get: %v", err)
 				return sc
 			}
-			members = append(members, m)
+			members = append(members, &clientSide{sc: sc, k: j + 1, tp: sp.real[j], inner: m})
 			ks = append(ks, j+1)
-			sc.Trk = append(sc.Trk, annh.TrkCfg{UDP: sp.real[j] == "udp", Dest: j + 1, Up0: p[0] == 'O'})
+			sc.Trk = append(sc.Trk, annh.TrkCfg{UDP: sp.real[j] == "udp", Dest: j + 1, Up0: false})
 		}
 		count = func() int {
 			c := 0
@@ -422,6 +453,19 @@ func (s *stallMeter) since(mark int) int {
 		sum = 60000
 	}
 	return sum
+}
+
+// worst single stall (ms) since mark
+func (s *stallMeter) maxSince(mark int) int {
+	s.mu.Lock()
+	defer s.mu.Unlock()
+	mx := 0
+	for i := mark; i < len(s.hist); i++ {
+		if s.hist[i] > mx {
+			mx = s.hist[i]
+		}
+	}
+	return mx
 }
 
 // ---------------------------------------------------------------------------------------------------------------------
@@ -560,11 +604,11 @@ func mustIH(h string) [20]byte {
 func runSessTier(name string, pats []string, root string, seed int64, maxMs int, stall *stallMeter) *annh.Sc {
 	sc := annh.NewSc(name, "sesstier")
 	sc.Cmin, sc.Lat, sc.Slk = 800, 500, 4000
-	sc.HTTPTO = 1000
+	sc.HTTPTO = 3000
 	s0 := stall.mark()
 	env, err := annh.NewEnv(root, func(c *torrent.Config) {
 		c.TrackerMinAnnounceInterval = 800 * time.Millisecond
-		c.TrackerHTTPTimeout = time.Second
+		c.TrackerHTTPTimeout = 3 * time.Second
 	})
 	if err != nil {
 		sc.Fail("session: %v", err)
@@ -638,6 +682,10 @@ func runSessTier(name string, pats []string, root string, seed int64, maxMs int,
 	annh.WaitUntil(3*time.Second, func() bool { return tr.Stats().Status == torrent.Stopped })
 	sc.Line("end", nil)
 	sc.Slk += 2 * stall.since(s0)
+	if st := stall.maxSince(s0); st > 1000 {
+		// an announce attempt that times out on the client before the scripted server sees it would look like a skipped member
+		sc.Fail("machine stalled for %d ms during the scenario: tier order not judgeable from the server side", st)
+	}
 	return sc
 }
 
